@@ -168,6 +168,73 @@ pub fn noise(comp: &str, seed: u64, runs: usize, n: usize, w: &mut dyn Write) {
     }
 }
 
+/// typist driver: a simulated person at a keyboard. Keeps a set of physically held keys and
+/// produces key events the way real typing does: press a key, release a held key (in any order),
+/// typematic repeat of the most recently pressed key that is still held, lock-key taps, and now
+/// and then a change of Ctrl handling between two events. This makes histories such as "key
+/// down, modifier up, same key down again" or "modifier held across another key's press and
+/// release" common, which uniformly random events almost never produce. Events go through
+/// process_keyevent; every 4th run sends them as Set-agnostic bytes is left to the noise driver.
+pub fn typist(comp: &str, seed: u64, runs: usize, n: usize, w: &mut dyn Write) {
+    use pc_keyboard::KeyCode as K;
+    let mut r = StdRng::seed_from_u64(seed ^ 0x5eed_7791);
+    const MODS: [K; 9] = [K::LShift, K::RShift, K::LControl, K::RControl, K::LAlt, K::RAltGr, K::RControl2, K::CapsLock, K::NumpadLock];
+    for _ in 0..runs {
+        let mut m = make(comp);
+        let st: Value = stage_json(&m);
+        writeln!(w, "{}", json!({"in": ["reset"], "ret": ["none"], "q": ["noq"], "obs": m.obs(), "stage": st})).unwrap();
+        let mut held: Vec<K> = Vec::new();
+        let mut last: Option<K> = None;
+        // a small working set of keys makes coincidences (same key again) likely
+        let pool: Vec<K> = (0..10).map(|_| ALL_KEYS[r.gen_range(0..124)]).collect();
+        let mut count = 0usize;
+        let mut alive = true;
+        while count < n && alive {
+            let inp = match r.gen_range(0..100) {
+                0..=29 => {
+                    // press: a modifier, a key from the pool, or any key
+                    let k = match r.gen_range(0..10) {
+                        0..=3 => MODS[r.gen_range(0..9)],
+                        4..=8 => pool[r.gen_range(0..pool.len())],
+                        _ => ALL_KEYS[r.gen_range(0..124)],
+                    };
+                    if !held.contains(&k) {
+                        held.push(k);
+                    }
+                    last = Some(k);
+                    Input::Key(k, KeyState::Down)
+                }
+                30..=54 if !held.is_empty() => {
+                    let i = r.gen_range(0..held.len());
+                    let k = held.remove(i);
+                    Input::Key(k, KeyState::Up)
+                }
+                55..=79 => match last {
+                    // typematic repeat of the most recently pressed key, if still held
+                    Some(k) if held.contains(&k) => Input::Key(k, KeyState::Down),
+                    _ => match held.last() {
+                        Some(&k) => Input::Key(k, KeyState::Down),
+                        None => Input::Key(pool[r.gen_range(0..pool.len())], KeyState::Down),
+                    },
+                },
+                80..=89 => {
+                    // a stray release of a key that is not held, or a one-shot
+                    let k = ALL_KEYS[r.gen_range(0..124)];
+                    Input::Key(k, if r.gen_bool(0.8) { KeyState::Up } else { KeyState::SingleShot })
+                }
+                90..=95 => Input::Mode(if r.gen() { HandleControl::Ignore } else { HandleControl::MapLettersToUnicode }),
+                _ => match r.gen_range(0..3) {
+                    0 => Input::Byte(pick_byte(&mut r)),
+                    1 => Input::Bit(r.gen()),
+                    _ => Input::Clear,
+                },
+            };
+            alive = log(w, &mut m, &inp);
+            count += 1;
+        }
+    }
+}
+
 /// replay a scripted list of scenarios: JSON array of arrays of inputs, each on a fresh object
 pub fn scripted(comp: &str, scenarios: &Value, w: &mut dyn Write) {
     for sc in scenarios.as_array().expect("scenarios: array") {
